@@ -68,3 +68,28 @@ PROPS["C14"] = {
     "level_text": "complete position x response-kind sweep over the IdP-call sequence of each sampled flow; seeded choice of flow and world",
     "assumptions": COMMON_ASSUMPTIONS + ["claim values the extractor is documented to coerce (numbers / objects rendered as strings) are judged 'either': only no-crash and no-empty-identity are asserted for them"],
 }
+
+PROPS["C10"] = {
+    "level": "exploration",
+    "quick_runs": 1600, "quick_budget_s": 150, "thorough_budget_s": 600,
+    "rule": "one run = one world (store, cookie name incl. lengths 1-256 and the other token characters, secret size, expire, domain, path, "
+            "SameSite, Secure) + a history of 2-8 operations in ONE browser jar; mode 'flows': login with a session of chosen size (split thresholds "
+            "found per world by bisection on the number of emitted cookies, sizes drawn from a +-40 byte window around them, tiny, 2-4 parts), refresh "
+            "to another size, login as another user without sign-out, htpasswd form login, sign-out, replica restart; mode 'store-api': Save/Load/Clear "
+            "of a real replica's store with exotic field contents (Unicode, NUL, binary nonce, empty groups); after every step the request built from "
+            "the jar must load exactly the last saved session; non-trivial = a split cookie was emitted; distinct = distinct operation history + event hash",
+    "level_text": "seeded search over save histories with a browser jar (RFC 6265 subset, drops cookies over 4096 bytes) against both stores",
+    "assumptions": COMMON_ASSUMPTIONS + ["browser model: replaces a cookie by (name, domain, path), deletes on Max-Age<=0, drops Set-Cookie lines over 4096 bytes"],
+}
+
+PROPS["C11"] = {
+    "level": "exploration",
+    "quick_runs": 1600, "quick_budget_s": 150, "thorough_budget_s": 600,
+    "rule": "one run = one world (store, 1-2 replicas, cookie name swarm incl. metacharacters and 250/256-character names, 0-3 cookie domains, 1-3 hosts "
+            "of the deployment, Secure, SameSite, refresh-token rotation) + a history login -> 0-3 requests (refreshes to other session sizes, other hosts) -> "
+            "sign-out (GET/POST, with/without rd; the store DEL fails before effect / after effect / times out in 1/3 of the Redis runs) -> replay of every "
+            "Cookie header the browser ever sent; oracle = browser jar after applying the response + Redis contents + upstream log; "
+            "non-trivial = the sign-out request presented a session cookie; distinct = distinct history + event hash",
+    "level_text": "seeded search over sign-out histories judged against a browser jar and the store contents, with fault injection on the store delete",
+    "assumptions": COMMON_ASSUMPTIONS + ["cookie store: replay of an old unexpired cookie after sign-out is not required to fail (the statement limits that to server-side stores)"],
+}
